@@ -221,39 +221,51 @@ func OtherID(code *jen.Statement) *JenID {
 
 // TypeOf creates a Type.
 func TypeOf(t types.Type) *Type {
+	return typeOf(t, map[types.Type]*Type{})
+}
+
+// typeOf creates a Type. named holds the named types that are being created, a named type may
+// refer to itself through a pointer, slice, array or map (type Tree []Tree).
+func typeOf(t types.Type, named map[types.Type]*Type) *Type {
 	t = types.Unalias(t)
+	if rt, ok := named[t]; ok {
+		return rt
+	}
 	rt := &Type{}
 	rt.T = t
 	rt.String = t.String()
-	applyTo(rt, t)
+	if _, ok := t.(*types.Named); ok {
+		named[t] = rt
+	}
+	applyTo(rt, t, named)
 	return rt
 }
 
-func applyTo(rt *Type, t types.Type) {
+func applyTo(rt *Type, t types.Type, named map[types.Type]*Type) {
 	switch value := t.(type) {
 	case *types.Pointer:
 		rt.Pointer = true
 		rt.PointerType = value
-		rt.PointerInner = TypeOf(value.Elem())
+		rt.PointerInner = typeOf(value.Elem(), named)
 	case *types.Basic:
 		rt.Basic = true
 		rt.BasicType = value
 	case *types.Map:
 		rt.Map = true
 		rt.MapType = value
-		rt.MapKey = TypeOf(value.Key())
-		rt.MapValue = TypeOf(value.Elem())
+		rt.MapKey = typeOf(value.Key(), named)
+		rt.MapValue = typeOf(value.Elem(), named)
 	case *types.Slice:
 		rt.List = true
-		rt.ListInner = TypeOf(value.Elem())
+		rt.ListInner = typeOf(value.Elem(), named)
 	case *types.Array:
 		rt.List = true
 		rt.ListFixed = true
-		rt.ListInner = TypeOf(value.Elem())
+		rt.ListInner = typeOf(value.Elem(), named)
 	case *types.Named:
 		rt.Named = true
 		rt.NamedType = value
-		applyTo(rt, value.Underlying())
+		applyTo(rt, value.Underlying(), named)
 	case *types.Struct:
 		rt.Struct = true
 		rt.StructType = value
